@@ -132,6 +132,11 @@ def setTopDesc (stack : List StackItem) (desc : ElementDescriptor) : List StackI
   | none => stack
   | some top => stack.dropLast ++ [{ top with desc := desc }]
 
+/-- What the `Option<&mut ElementDescriptor>` handed to `handle_token` leaves in the VM stack. -/
+def writeBack : Option (List StackItem) → Option ElementDescriptor → Option (List StackItem)
+  | some stack, some desc => some (setTopDesc stack desc)
+  | vm, _ => vm
+
 /-- Input events: what the parser reports, in document order. -/
 inductive Event
   | startTag (name : Name) (dir : StackDirective) (selfClosing : Bool) (matched : List Nat)
@@ -166,10 +171,7 @@ def step (script : ElemScript) (s : State) (ord : Nat) : Event → Except Panic 
         match c.disp.handleStartTag script ord c.currentElementData with
         | .error e => .error e
         | .ok (d, desc, inv) =>
-          let vm := match c.vm, desc with
-            | some stack, some desc => some (setTopDesc stack desc)
-            | vm, _ => vm
-          .ok ({ ctrl := { disp := d, vm := vm }, flags := flags }, inv)
+          .ok ({ ctrl := { disp := d, vm := writeBack c.vm desc }, flags := flags }, inv)
       else .ok ({ ctrl := c, flags := flags }, [])
   | .endTag name =>
     match s.ctrl.handleEndTag name with
